@@ -339,7 +339,7 @@ fn main() {
         let mut cx = Ctx { rep: &mut rep, model: &mut model };
         probes(&mut cx, &s);
         // generated: tables x statements
-        let tables = args.n(60, 1200);
+        let tables = args.n(150, 1500);
         let per_table = args.n(14, 30);
         let big_hi = args.n(1100, 5000) as i64;
         for ti in 0..tables {
